@@ -7,7 +7,7 @@ if ! git apply --check "$patch" 2>/dev/null; then echo "PATCH DOES NOT APPLY: $p
 git apply "$patch"
 cd /verif
 for p in "$@"; do
-  out=$(VERIF_SEED=${VERIF_SEED:-1} ./check "$p" --tier "${TIER:-quick}" 2>&1)
+  out=$(VERIF_NO_EVIDENCE=1 VERIF_SEED=${VERIF_SEED:-1} ./check "$p" --tier "${TIER:-quick}" 2>&1)
   rc=$?
   echo "== $p exit=$rc"; echo "$out" | grep -E "^VIOLATION|^KNOWN" | cut -c1-260 | head -4
 done
